@@ -252,6 +252,8 @@ class Func:
             if len(a) == 2 and n["op"] not in ("()", "[]"):
                 return "(%s %s %s)" % (self.text(a[0], depth + 1), n["op"], self.text(a[1], depth + 1))
             if len(a) == 1:
+                if n["op"] == "->":
+                    return self.text(a[0], depth + 1)   # smart pointer: p->m reads like a raw pointer
                 return n["op"] + self.text(a[0], depth + 1)
             if n["op"] == "[]":
                 return "%s[%s]" % (self.text(a[0], depth + 1), self.text(a[1], depth + 1))
